@@ -83,6 +83,24 @@ class C05(Check):
                     if any(c == 2 for c in counts):
                         add("adv-struct", True, blocks, [list(reversed(b)) for b in bros],
                             bound=b3)
+        # repeated entries: the same brother header twice, two headers of one uncle (they differ in
+        # the merkle proof only, so their block hash is the same), the same block header at two
+        # positions of the list with different brothers
+        def twin(b):
+            f = R.decode(bytes.fromhex(b["raw"]), strict=False)
+            f[-2] = bytes(x ^ 0x5a for x in f[-2])
+            t = dict(b)
+            t["raw"] = R.encode(f).hex()
+            return t
+        one = [blk(20)]
+        x, y = blk(19), blk(19)
+        for bl in ([x, x], [x, y, x], [x, twin(x)], [twin(x), y, x], [y, y, y]):
+            add("adv-dup", True, one, [bl], bound=self.bound - 1)
+        b0, b1, b2 = blk(19), blk(20), blk(19)
+        add("adv-repeat", True, [b0, b1, b0], [[x], [], [y]], bound=self.bound - 1)
+        add("adv-repeat", True, [b0, b0], [[x, y], []], bound=self.bound - 1)
+        add("adv-repeat", True, [b0, b1, b2, b1], [[], [x], [y], []], bound=1)
+        add("upd-repeat", False, [b0, b1, b0], bound=self.bound - 1)
         # 5..10 brothers: rotations
         for nb in ((5, 10) if not self.thorough else (5, 7, 10)):
             bros = [blk(19) for _ in range(nb)]
@@ -273,6 +291,13 @@ class C05(Check):
                     viol("extra-brother", {"block": bi, "index": j}, {"brothers": len(lst)})
                     break
                 b = lst[j]
+                # brothers of equal hash may come in either order: take the one that is being sent
+                used = bro_expected.setdefault(bi, set())
+                ties = [k for k in range(len(lst)) if lst[k]["hash"] == b["hash"] and k not in used]
+                pick = next((k for k in ties if bytes.fromhex(lst[k]["raw"])[:len(it["data"])] == it["data"]),
+                            ties[0] if ties else j)
+                used.add(pick)
+                b = lst[pick]
                 want = bytes.fromhex(b["raw"])
                 meta = struct.pack(">H", b["mm"]) + bytes.fromhex(b["cb"])
                 what = "brother"
